@@ -486,4 +486,133 @@ theorem runFn_kind {f : Fn} {h : Heap} {args rets : List PVal} {h1 : Heap} (hr :
     · cases hr
     · simp at hr; rw [← hr.2]; exact runOps_kind _ he
 
+
+/-! ### `vars(obj)` keeps distinct keys -/
+
+/-- every attribute dictionary in the heap has pairwise distinct keys (a fact about Python dicts) -/
+def AttrsNodup (h : Heap) : Prop :=
+  ∀ (a : Nat) (cls : String) (attrs : List (Key × PVal)), h[a]? = some (.node cls attrs) → keysNodup attrs
+
+theorem lookupKV_isSome_iff {k : Key} : ∀ {l : List (Key × PVal)}, (lookupKV k l).isSome = true ↔ k ∈ l.map (·.1)
+  | [] => by simp [lookupKV]
+  | (k0, v0) :: rest => by
+    simp only [lookupKV, List.map_cons, List.mem_cons]
+    by_cases e : k0 = k
+    · simp [e]
+    · simp only [e, if_false, lookupKV_isSome_iff (l := rest)]
+      constructor
+      · exact Or.inr
+      · rintro (h | h)
+        · exact absurd h.symm e
+        · exact h
+
+theorem map_fst_setKV (k : Key) (v : PVal) : ∀ (l : List (Key × PVal)), (setKV k v l).map (·.1) = l.map (·.1)
+  | [] => rfl
+  | (k0, v0) :: rest => by
+    simp only [setKV]
+    by_cases e : k0 = k
+    · simp [e]
+    · simp [e, map_fst_setKV k v rest]
+
+theorem keysNodup_putKV {k : Key} {v : PVal} {l : List (Key × PVal)} (h : keysNodup l) : keysNodup (putKV k v l) := by
+  unfold putKV keysNodup at *
+  by_cases hs : (lookupKV k l).isSome
+  · simp only [hs, if_true, map_fst_setKV]; exact h
+  · simp only [hs, Bool.false_eq_true, if_false, List.map_append, List.map_cons, List.map_nil]
+    have : k ∉ l.map (·.1) := fun hm => hs (lookupKV_isSome_iff.mpr hm)
+    exact List.nodup_append.mpr ⟨h, by simp, by intro x hx y hy; simp at hy; subst hy; exact fun e => this (e ▸ hx)⟩
+
+theorem keysNodup_eraseKV {k : Key} {l : List (Key × PVal)} (h : keysNodup l) : keysNodup (eraseKV k l) := by
+  unfold eraseKV keysNodup at *
+  exact List.Nodup.sublist (List.Sublist.map _ List.filter_sublist) h
+
+theorem attrsNodup_write {h : Heap} (n : AttrsNodup h) {a : Nat} {o : Obj}
+    (ho : ∀ cls attrs, o = .node cls attrs → keysNodup attrs) : AttrsNodup (write h a o) := by
+  intro b cls attrs hb
+  by_cases e : b = a
+  · subst e
+    by_cases hlt : b < h.length
+    · rw [write_get _ _ _ hlt] at hb
+      exact ho cls attrs (Option.some.inj hb)
+    · simp [write, List.getElem?_eq_none (show (h.set b o).length ≤ b by simp; omega)] at hb
+  · rw [write_frame _ _ _ _ e] at hb
+    exact n b cls attrs hb
+
+theorem attrsNodup_append {h : Heap} (n : AttrsNodup h) {o : Obj}
+    (ho : ∀ cls attrs, o = .node cls attrs → keysNodup attrs) : AttrsNodup (h ++ [o]) := by
+  intro b cls attrs hb
+  by_cases hlt : b < h.length
+  · rw [List.getElem?_append_left hlt] at hb; exact n b cls attrs hb
+  · by_cases e : b = h.length
+    · subst e; simp at hb; exact ho cls attrs hb
+    · rw [List.getElem?_eq_none (by simp; omega)] at hb; cases hb
+
+theorem runOp_nodup {h : Heap} {env : List PVal} {op : Op} {h1 : Heap} {env1 : List PVal} (n : AttrsNodup h)
+    (hr : runOp h env op = .ok (h1, env1)) : AttrsNodup h1 := by
+  cases op with
+  | getAttr r k =>
+    simp only [runOp] at hr
+    split at hr <;> try cases hr
+    split at hr <;> try cases hr
+    split at hr <;> try cases hr
+    exact n
+  | readVar r =>
+    simp only [runOp] at hr
+    split at hr <;> try cases hr
+    split at hr <;> try cases hr
+    exact n
+  | setVar r e =>
+    simp only [runOp] at hr
+    split at hr <;> try cases hr
+    split at hr <;> try cases hr
+    split at hr <;> try cases hr
+    exact attrsNodup_write n (fun cls attrs he => by cases he)
+  | setAttr r k src =>
+    simp only [runOp] at hr
+    split at hr <;> try cases hr
+    split at hr <;> try cases hr
+    next cls attrs hg =>
+    exact attrsNodup_write n (fun cls' attrs' he => by
+      cases he; exact keysNodup_putKV (n _ _ _ hg))
+  | delAttr r k =>
+    simp only [runOp] at hr
+    split at hr <;> try cases hr
+    split at hr <;> try cases hr
+    next cls attrs hg =>
+    split at hr <;> try cases hr
+    exact attrsNodup_write n (fun cls' attrs' he => by
+      cases he; exact keysNodup_eraseKV (n _ _ _ hg))
+  | newNode cls =>
+    simp only [runOp] at hr; cases hr
+    exact attrsNodup_append n (fun cls' attrs' he => by cases he; simp [keysNodup])
+  | newVar ty e md =>
+    simp only [runOp] at hr
+    split at hr <;> try cases hr
+    exact attrsNodup_append n (fun cls' attrs' he => by cases he)
+  | litStatic s => simp only [runOp] at hr; cases hr; exact n
+  | litNone => simp only [runOp] at hr; cases hr; exact n
+  | data e =>
+    simp only [runOp] at hr
+    split at hr <;> try cases hr
+    exact n
+
+theorem runOps_nodup : ∀ (ops : List Op) {h : Heap} {env : List PVal} {h1 : Heap} {env1 : List PVal},
+    AttrsNodup h → runOps ops h env = .ok (h1, env1) → AttrsNodup h1
+  | [], h, env, h1, env1, n, hr => by simp [runOps] at hr; rw [← hr.1]; exact n
+  | op :: rest, h, env, h1, env1, n, hr => by
+    simp only [runOps] at hr
+    split at hr
+    · cases hr
+    · next h2 env2 he => exact runOps_nodup rest (runOp_nodup n he) hr
+
+theorem runFn_nodup {f : Fn} {h : Heap} {args rets : List PVal} {h1 : Heap} (n : AttrsNodup h)
+    (hr : runFn f h args = .ok (rets, h1)) : AttrsNodup h1 := by
+  unfold runFn at hr
+  split at hr
+  · cases hr
+  · next h2 env2 he =>
+    split at hr
+    · cases hr
+    · simp at hr; rw [← hr.2]; exact runOps_nodup _ n he
+
 end Flax.Nnx
